@@ -26,7 +26,7 @@ OUT = os.path.join(ROOT, "coq", "Gen", "UsesTree.v")
 # function -> list of roles, in source order
 KNOWN_SITES = {
     ("input.c", "reb_input_fields"): ["maintain"],                      # rebuild after restore / copy
-    ("particle.c", "reb_simulation_add_local"): ["maintain"],           # insert a new particle
+    ("particle.c", "reb_simulation_add_local_store"): ["maintain"],     # insert a particle (new: reb_simulation_add_local; re-inserted by the tree update: reb_simulation_reinsert_particle)
     ("rebound.c", "reb_simulation_step"): ["maintain_or_pending", "gravity_data", "maintain_or_pending"],   # mid-step, gravity data, end of step
     ("tools.c", "reb_simulation_move_to_com"): ["maintain"],
 }
